@@ -45,6 +45,8 @@ type c03Scn struct {
 	MTU    int    `json:"mtu"`    // 0 = default; thorough tier repeats every scenario with fragmented flights
 	Key    string `json:"key"`    // scheme_confusion: key type of the presented (victim's) certificate: ecdsa | rsa | ed25519
 	Claim  string `json:"claim"`  // scheme_confusion: family of the signature scheme the rogue claims: ed25519 | ecdsa | rsa
+	SName  string `json:"sname"`  // server_name: the client's configured ServerName (DNS name, IP literal or "-" for empty)
+	SCert  string `json:"scert"`  // server_name: what the presented certificate is valid for: dns | dnsother | ip4 | ip4other | ip6 | ip6other
 }
 
 type c03Alert struct {
@@ -109,6 +111,9 @@ func c03WithKey(chain tls.Certificate, key crypto.PrivateKey) tls.Certificate {
 
 var errC03Reject = errors.New("verif: callback rejects") //nolint:gochecknoglobals
 
+// the rogue client's Conn of the running scenario (logger hooks of zz_verif_c03_ext_test.go reach its state)
+var c03AttackerConn *Conn //nolint:gochecknoglobals
+
 // installed by zz_verif_c03t_test.go (only present when the tamper overlay is active)
 var c03TamperInstall func(scn c03Scn, hits *int) func() //nolint:gochecknoglobals
 
@@ -142,6 +147,8 @@ func (s c03Scn) configs(obs *c03Obs) (*dtlsConfig, *dtlsConfig) {
 	signer := func(k crypto.PrivateKey) crypto.Signer { return k.(crypto.Signer) } //nolint:forcetypeassert
 	if s.Rogue == "scheme_confusion" {
 		c03ConfusionConfigs(s, c, sv)
+	} else if s.Rogue == "server_name" || s.Rogue == "empty_psk" || s.Rogue == "psk_only_13" {
+		c03ExtConfigs(s, &c, &sv, obs)
 	} else if s.Honest == "client" { // rogue server
 		switch s.Rogue {
 		case "honest":
@@ -269,6 +276,8 @@ func runC03(t *testing.T, scn c03Scn) c03Obs {
 	}
 	lab := newLab(t, ccfg, scfg)
 	defer lab.close()
+	c03AttackerConn = lab.Client.Conn
+	defer func() { c03AttackerConn = nil }()
 	lab.Pump.run(lab.bothDone, 25*time.Second)
 	obs.CRes, obs.CErr = c03Class(lab.Client)
 	obs.SRes, obs.SErr = c03Class(lab.Server)
@@ -328,6 +337,9 @@ func c03ID(s c03Scn) string {
 	}
 	if s.Key != "" {
 		id += "/key=" + s.Key + "/claim=" + s.Claim
+	}
+	if s.SName != "" {
+		id += "/name=" + s.SName + "/cert=" + s.SCert
 	}
 
 	return id
@@ -417,6 +429,9 @@ func c03Scenarios() []c03Scn {
 	}
 
 	for _, sc := range c03ConfusionScenarios() {
+		add(sc)
+	}
+	for _, sc := range c03ExtScenarios() {
 		add(sc)
 	}
 
